@@ -25,7 +25,7 @@ ASSUMPTIONS = ['precondition of the property: coordinate sorted input and every 
                'schedules are the deterministic ejection interval of a single-threaded generator']
 MIN_NONTRIVIAL = {'quick': 1500, 'thorough': 20000}
 REQUIRED_MONITORS = ['event:arrive', 'event:emit', 'emit:before_end_of_input', 'schedule:runs', 'path:alignmentfile', 'oracle:truth_compared',
-                     'eject:rounds_with_ejection', 'eject:rounds_nonprefix', 'eject:rounds_noncontiguous']
+                     'eject:rounds_with_ejection', 'eject:rounds_nonprefix', 'eject:rounds_noncontiguous', 'history:restarted_passes']
 EXHAUSTIVE = {'quick': True, 'thorough': True}
 SHARD_TIMEOUT = {'quick': 900, 'thorough': 7200}
 
@@ -306,6 +306,23 @@ def run_case(case):
         for pooling in (0, 1):
             ev, em, arr = execute(every, pooling)
             decide(every, pooling, ev, em, arr, ref_parts[pooling], 'generator')
+    # history: the same iterator object is iterated again after an earlier pass over it was stopped early (`for m in it: break`,
+    # as in the class documentation); the second, complete pass must give the reference partition with every fragment exactly once
+    for every in [None] + r.sample(schedules, min(3, len(schedules))):
+        for pooling in (0, 1):
+            source = [(make_seg(header, r1), make_seg(header, r2) if r2 is not None else None) for rid, r1, r2 in pairs]
+            stop_after = r.randint(0, max(0, len(ref_parts[pooling]) - 1))
+            with contextlib.redirect_stdout(io.StringIO()):
+                it = MoleculeIterator(source, molecule_class=mclass, fragment_class=fclass, fragment_class_args=dict(fargs),
+                                      molecule_class_args={'cache_size': cache}, check_eject_every=every, pooling_method=pooling, yield_invalid=True)
+                for k, m in enumerate(it):
+                    if k >= stop_after:
+                        break
+                emitted = []
+                for m in it:
+                    emitted.append(sorted(F.id_from_name([x for x in frag if x is not None][0].query_name) for frag in m))
+            acc.count('history:restarted_passes')
+            decide(every, pooling, [], emitted, [None] * len(emitted), ref_parts[pooling], f'restart-after-{stop_after}-molecules')
     # real AlignmentFile path on a few schedules
     if case['i'] % 4 == 0:
         with Scratch('c07') as dd:
